@@ -324,6 +324,19 @@ B("dzero-checked_rem-bool-then-wrong-polarity", ["C03"],
 N("idiom-from_limbs_slice-via-checked", ["C17", "C07"],
   [("src/lib.rs", "        match Self::overflowing_from_limbs_slice(slice) {\n            (n, false) => n,\n            (_, true) => panic!(\"Value too large for this Uint\"),\n        }", "        match Self::checked_from_limbs_slice(slice) {\n            Some(n) => n,\n            None => panic!(\"Value too large for this Uint\"),\n        }")])
 
+# ---- R-GUARD/TryFrom<u64> on intervals: errors only where the value does not fit, Ok only where it fits
+B("u64-model-rejects-value-equal-to-mask", ["C07"],
+  [("src/from.rs", "    fn try_from(value: u64) -> Result<Self, Self::Error> {\n        if LIMBS <= 1 {\n            if value > Self::MASK {", "    fn try_from(value: u64) -> Result<Self, Self::Error> {\n        if LIMBS <= 1 {\n            if value >= Self::MASK && value != 0 {")], "try_from_u64")
+N("idiom-u64-model-renamed-and-restructured", ["C07"],
+  [("src/from.rs", "    fn try_from(value: u64) -> Result<Self, Self::Error> {\n        if LIMBS <= 1 {\n            if value > Self::MASK {\n                // Construct wrapped value\n                let mut limbs = [0; LIMBS];\n                if LIMBS == 1 {\n                    limbs[0] = value & Self::MASK;\n                }\n                return Err(ToUintError::ValueTooLarge(BITS, Self::from_limbs(limbs)));\n            }\n            if LIMBS == 0 {\n                return Ok(Self::ZERO);\n            }\n        }\n        let mut limbs = [0; LIMBS];\n        limbs[0] = value;\n        Ok(Self::from_limbs(limbs))",
+    "    fn try_from(n: u64) -> Result<Self, Self::Error> {\n        let fits = LIMBS > 1 || n <= Self::MASK;\n        if !fits {\n            let mut wrapped = [0; LIMBS];\n            if LIMBS == 1 {\n                wrapped[0] = n & Self::MASK;\n            }\n            return Err(ToUintError::ValueTooLarge(BITS, Self::from_limbs(wrapped)));\n        }\n        if LIMBS == 0 {\n            return Ok(Self::ZERO);\n        }\n        let mut limbs = [0; LIMBS];\n        limbs[0] = n;\n        Ok(Self::from_limbs(limbs))")])
+
+# ---- R-FLOAT classification: provable violations only; other spellings are not decided
+B("float-negative-by-negated-ge-before-nan-test", ["C18"],
+  [("src/from.rs", "        if value.is_nan() {\n            return Err(ToUintError::NotANumber(BITS));\n        }\n        if value < 0.0 {\n            let wrapped = match Self::try_from(value.abs()) {", "        if !(value >= 0.0) {\n            let wrapped = match Self::try_from(value.abs()) {")], "ValueNegative")
+N("idiom-float-classification-renamed-and-reordered", ["C18"],
+  [("src/from.rs", "    fn try_from(value: f64) -> Result<Self, Self::Error> {\n        if value.is_nan() {\n            return Err(ToUintError::NotANumber(BITS));\n        }\n        if value < 0.0 {\n            let wrapped = match Self::try_from(value.abs()) {", "    fn try_from(value: f64) -> Result<Self, Self::Error> {\n        let x = value;\n        if x != x {\n            return Err(ToUintError::NotANumber(BITS));\n        }\n        if x < 0.0 {\n            let wrapped = match Self::try_from(x.abs()) {")])
+
 # ---- R-TOTAL/overflow-checks on C16 (defect F16, re-created)
 B("ovf-scale-size_hint-256-bit-formula", ["C16"],
   [("src/support/scale.rs", "            _ => self.0.byte_len() + 1,\n", "            _ => (32 - self.0.leading_zeros() / 8) + 1,\n")], "Overflow(Sub:32")
